@@ -135,7 +135,7 @@ def kvVal (toks : List String) (key : String) : Option String :=
 
 /-- A value the model can return. -/
 inductive Val where
-  | fd (n : Fd) | bytes (b : Bytes) | unit | num (n : Nat) (buf : Option Bytes)
+  | fd (n : Fd) | bytes (b : Bytes) | unit | num (n : Nat) (buf : Option Bytes) | handle (h : ProcH)
 deriving Repr, DecidableEq
 
 def errLine : Err → String
@@ -155,6 +155,9 @@ def resultLine : Except Err Val → String
   | .ok (.bytes b) => s!"ok bytes {hex b}"
   | .ok .unit => "ok unit"
   | .ok (.num n _) => s!"ok num {n}"
+  | .ok (.handle h) =>
+    let m := match h.mntId with | some m => toString m | none => "none"
+    s!"ok handle fd={h.fd} mnt={m} subset={if h.isSubset then 1 else 0}"
   | .error e => errLine e
 
 /-- canonical form of the implementation's `res` line for comparison -/
@@ -164,6 +167,7 @@ def implResultLine (res : List String) : String :=
   | ["ok", "bytes", b] => s!"ok bytes {b}"
   | ["ok", "unit"] => "ok unit"
   | ["ok", "num", n] => s!"ok num {n}"
+  | "ok" :: "handle" :: fd :: mnt :: sub :: _ => s!"ok handle {fd} {mnt} {sub}"
   | ["err", k, e] => s!"err {k} {e}"
   | "cerr" :: e :: _ => s!"cerr {e}"
   | "panic" :: _ => "panic"
@@ -302,11 +306,39 @@ def modelOf (c : Case) : Except String (M Val) := do
     | "proc_open" => pure (mapVal .fd (Capi.procOpen env base path flags))
     | "proc_readlink" => pure (mapVal (fun (n, b) => .num n b) (Capi.procReadlink env base path buf0 bs))
     | other => .error s!"unknown C function {other}"
+  | ["proc_new", kind] =>
+    match kind with
+    | "new" => pure (mapVal .handle (Procfs.new env))
+    | "new_unmasked" => pure (mapVal .handle (Procfs.newUnmasked env))
+    | "fsopen_subset" => pure (mapVal .handle (Procfs.newFsopen env true))
+    | "fsopen_full" => pure (mapVal .handle (Procfs.newFsopen env false))
+    | "open_tree" => pure (mapVal .handle (Procfs.newOpenTree env 0))
+    | "open_tree_recursive" => pure (mapVal .handle (Procfs.newOpenTree env AT_RECURSIVE))
+    | "unsafe_open" => pure (mapVal .handle (Procfs.newUnsafeOpen env))
+    | other => .error s!"proc_new {other}"
   | ["reopen", _, fl, _] => do
     let fl ← nat fl
     match (kvVal c.handle "fd").bind String.toInt? with
     | some h => pure (mapVal .fd (Procfs.reopen env h fl))
     | none => .error "reopen: no handle"
+  | [pop, base, fl, p] =>
+    if !(pop.startsWith "proc_") then .error s!"unknown op {c.op}" else do
+    let p ← bytes p
+    let fl ← nat fl
+    let base ← match base with
+      | "root" => pure Procfs.Base.root
+      | "self" => pure Procfs.Base.self
+      | "thread_self" => pure Procfs.Base.threadSelf
+      | b => .error s!"base {b}"
+    let hsubset := (cfgVal c "hsubset") = some "1"
+    let hemu := (cfgVal c "hemu") = some "1"
+    let hmnt : Option Nat := (cfgVal c "hmnt").bind String.toNat?
+    let h : ProcH := { fd := rootfd, mntId := hmnt, isSubset := hsubset, emulated := hemu }
+    match pop with
+    | "proc_open" => pure (mapVal .fd (Procfs.openH env Procfs.retryFuel h base p fl))
+    | "proc_open_follow" => pure (mapVal .fd (Procfs.openFollowH env h base p fl))
+    | "proc_readlink" => pure (mapVal .bytes (Procfs.readlinkH env h base p))
+    | other => .error s!"unknown procfs op {other}"
   | _ => .error s!"unknown op {c.op}"
 
 def showCall (c : Call) : String := reprStr c
